@@ -1,6 +1,11 @@
 //! C03 — dense matrix and vector algebra: correspondence cases for the Coq model (SC.C03.Corr, compared
 //! on the implementation's own column-major storage) and the failing-input search (oracles written from
 //! the property text on the logical rows-by-columns view, read through the public accessors).
+//! Every matrix an operation under test returns or mutates additionally passes the universal post-condition
+//! `storage_consistent` (it behaves exactly like the matrix rebuilt from its logical view under every
+//! operation that walks the raw buffer), and random 2-3 step chains of operations are compared step by step
+//! with the same operation applied to the rebuilt-from-logical-view operand (`chain_equals_rebuilt`) and with
+//! the definitions (`chain_definition`).
 use serde_json::{json, Value};
 use smartcore::linalg::high_order::HighOrderOperations;
 use smartcore::linalg::naive::dense_matrix::DenseMatrix;
@@ -12,7 +17,7 @@ use vharness::*;
 type Rows = Vec<Vec<f64>>;
 
 /// scalar type under test (f64 or f32) with exact conversion to/from f64
-trait Sc: RealNumber + 'static {
+trait Sc: RealNumber + serde::Serialize + serde::de::DeserializeOwned + 'static {
     const F32: bool;
     fn of(x: f64) -> Self;
     fn f(self) -> f64;
@@ -162,6 +167,7 @@ struct Verdict {
     fails: Vec<(String, String)>,
     known: Vec<(String, String)>,
     excluded: u32,
+    posts: u32,
 }
 impl Verdict {
     fn fail(&mut self, oracle: &str, what: String) {
@@ -202,6 +208,7 @@ impl Verdict {
                     self.fail(oracle, format!("{}: got {:?}, expected {:?}", what, got, exp));
                 }
             }
+            self.post(what, &m);
         }
     }
     /// matrix result with an entrywise absolute tolerance
@@ -212,15 +219,16 @@ impl Verdict {
                 self.fail(oracle, format!("{}: shape {:?}, expected {:?}", what, m.shape(), (n, p)));
             } else {
                 let got = view(&m);
-                for r in 0..n {
+                'cmp: for r in 0..n {
                     for c in 0..p {
                         if !close(got[r][c], exp[r][c], tol[r][c]) {
                             self.fail(oracle, format!("{}: entry ({},{}) = {:e}, expected {:e} (tolerance {:e})", what, r, c, got[r][c], exp[r][c], tol[r][c]));
-                            return;
+                            break 'cmp;
                         }
                     }
                 }
             }
+            self.post(what, &m);
         }
     }
     fn vec_exact(&mut self, oracle: &str, what: &str, r: Result<Vec<f64>, String>, exp: &[f64]) {
@@ -237,8 +245,12 @@ impl Verdict {
             }
         }
     }
-    /// in-place variant and copying variant must agree bit for bit
+    /// in-place variant and copying variant must agree bit for bit (the in-place result also passes the
+    /// post-condition here; the copying one passes it where it is compared with its definition)
     fn same_variants<T: Sc>(&mut self, what: &str, a: &Result<DenseMatrix<T>, String>, b: &Result<DenseMatrix<T>, String>) {
+        if let Ok(x) = a {
+            self.post(&format!("{} (in-place variant)", what), x);
+        }
         match (a, b) {
             (Ok(x), Ok(y)) => {
                 if x.shape() != y.shape() || !same_rows(&view(x), &view(y)) {
@@ -247,6 +259,190 @@ impl Verdict {
             }
             (Err(_), Err(_)) => {}
             _ => self.fail("inplace_equals_copy", format!("{}: one variant panicked, the other did not", what)),
+        }
+    }
+}
+
+// ------------------------------------------------------------------------------------------
+// universal post-condition `storage_consistent`: a matrix that an operation returned or mutated is an
+// ordinary matrix, i.e. it is indistinguishable from the matrix rebuilt from its logical view
+// (get(i,j) over the reported shape, through from_2d_array / from_vec) under every operation that reads
+// the raw buffer.  A well-formed DenseMatrix has exactly one storage for a given view (column-major,
+// rows*cols values), so every comparison below is bit for bit (NaN = NaN) - no tolerance is needed.
+// ------------------------------------------------------------------------------------------
+fn agree_f(a: &Result<f64, String>, b: &Result<f64, String>) -> bool {
+    match (a, b) { (Ok(x), Ok(y)) => same(*x, *y), (Err(_), Err(_)) => true, _ => false }
+}
+fn agree_v(a: &Result<Vec<f64>, String>, b: &Result<Vec<f64>, String>) -> bool {
+    match (a, b) { (Ok(x), Ok(y)) => same_vec(x, y), (Err(_), Err(_)) => true, _ => false }
+}
+fn agree_m(a: &Result<Rows, String>, b: &Result<Rows, String>) -> bool {
+    match (a, b) { (Ok(x), Ok(y)) => same_rows(x, y), (Err(_), Err(_)) => true, _ => false }
+}
+fn short<R: std::fmt::Debug>(r: &R) -> String {
+    let s = format!("{:?}", r);
+    if s.len() > 160 { format!("{}...", &s[..160]) } else { s }
+}
+fn storage_issues<T: Sc>(m: &DenseMatrix<T>) -> Vec<String> {
+    let mut is: Vec<String> = vec![];
+    let (n, p) = m.shape();
+    if n == 0 || p == 0 {
+        return is;
+    }
+    let vw = match guard(|| view(m)) {
+        Ok(x) => x,
+        Err(e) => {
+            is.push(format!("get(i,j) over the reported shape {}x{} panicked: {}", n, p, e));
+            return is;
+        }
+    };
+    let fl = flat(&vw);
+    let rt = rows_t::<T>(&vw);
+    let refs: Vec<&[T]> = rt.iter().map(|r| &r[..]).collect();
+    let e = DenseMatrix::<T>::from_2d_array(&refs);
+    let e2 = DenseMatrix::<T>::from_vec(n, p, &vec_t::<T>(&fl));
+    // (a) exact and approximate equality with the rebuilt matrix, both directions
+    let eqs: Vec<(&str, Result<bool, String>)> = vec![
+        ("result == rebuilt", guard(|| *m == e)),
+        ("rebuilt == result", guard(|| e == *m)),
+        ("result == rebuilt (from_vec)", guard(|| *m == e2)),
+        ("result.approximate_eq(rebuilt, 0)", guard(|| m.approximate_eq(&e, T::zero()))),
+        ("rebuilt.approximate_eq(result, 0)", guard(|| e.approximate_eq(m, T::zero()))),
+    ];
+    for (name, r) in &eqs {
+        if *r != Ok(true) {
+            is.push(format!("{} is {:?}", name, r));
+        }
+    }
+    // (b) iteration: exactly rows*cols items in row-major order
+    let it = guard(|| m.iter().take(n * p + 8).map(|x| x.f()).collect::<Vec<f64>>());
+    if !agree_v(&it, &Ok(fl.clone())) {
+        is.push(format!("iter() yields {} (expected the {} entries of the view in row-major order)", short(&it), n * p));
+    }
+    let trv = guard(|| vec_f(&m.clone().to_row_vector()));
+    if !agree_v(&trv, &Ok(fl.clone())) {
+        is.push(format!("to_row_vector() = {}", short(&trv)));
+    }
+    // (c) operations that read the buffer: same value as on the rebuilt matrix
+    type Red<T> = (&'static str, fn(&DenseMatrix<T>) -> T);
+    let reds: Vec<Red<T>> = vec![
+        ("sum", |q| q.sum()), ("min", |q| q.min()), ("max", |q| q.max()), ("norm2", |q| q.norm2()),
+        ("norm(1)", |q| q.norm(T::one())), ("norm(2)", |q| q.norm(T::two())),
+        ("norm(+inf)", |q| q.norm(T::infinity())), ("norm(-inf)", |q| q.norm(T::neg_infinity())),
+    ];
+    for (name, f) in &reds {
+        let (g, w) = (guard(|| f(m).f()), guard(|| f(&e).f()));
+        if !agree_f(&g, &w) {
+            is.push(format!("{} = {:?}, on the rebuilt matrix {:?}", name, g, w));
+        }
+    }
+    {
+        let (g, w) = (guard(|| vec_f(&m.unique())), guard(|| vec_f(&e.unique())));
+        if !agree_v(&g, &w) {
+            is.push(format!("unique = {}, on the rebuilt matrix {}", short(&g), short(&w)));
+        }
+        let w = guard(|| e.max_diff(&e).f());
+        for (name, g) in [("result.max_diff(rebuilt)", guard(|| m.max_diff(&e).f())), ("rebuilt.max_diff(result)", guard(|| e.max_diff(m).f()))] {
+            if !agree_f(&g, &w) || (fl.iter().all(|t| t.is_finite()) && g != Ok(0.0)) {
+                is.push(format!("{} = {:?} (expected 0)", name, g));
+            }
+        }
+        let want: Result<Rows, String> = Ok(vw.clone());
+        let g = guard(|| { let mut z = DenseMatrix::<T>::zeros(n, p); z.copy_from(m); view(&z) });
+        if !agree_m(&g, &want) {
+            is.push(format!("zeros(rows, cols).copy_from(result) gives {}", short(&g)));
+        }
+        let g = guard(|| { let mut z = m.clone(); z.copy_from(&e); view(&z) });
+        if !agree_m(&g, &want) {
+            is.push(format!("result.copy_from(rebuilt) gives {}", short(&g)));
+        }
+        if n == 1 || p == 1 {
+            let w = guard(|| e.dot(&e).f());
+            for (name, g) in [("result.dot(rebuilt)", guard(|| m.dot(&e).f())), ("rebuilt.dot(result)", guard(|| e.dot(m).f()))] {
+                if !agree_f(&g, &w) {
+                    is.push(format!("{} = {:?}, rebuilt.dot(rebuilt) = {:?}", name, g, w));
+                }
+            }
+        }
+        let g = guard(|| { let mut z = m.clone(); z.softmax_mut(); view(&z) });
+        let w = guard(|| { let mut z = e.clone(); z.softmax_mut(); view(&z) });
+        if !agree_m(&g, &w) {
+            is.push(format!("softmax_mut gives {}, on the rebuilt matrix {}", short(&g), short(&w)));
+        }
+    }
+    // (d) the storage as far as it is observable: Into<Vec<T>> and the serialised form
+    let raw: Vec<f64> = vec_f::<T>(&Vec::<T>::from(m.clone()));
+    if !same_vec(&raw, &colmajor(&vw)) {
+        is.push(format!("into Vec<T> gives {} values {}, a {}x{} matrix has {}", raw.len(), short(&raw), n, p, n * p));
+    }
+    match serde_json::to_value(m) {
+        Ok(j) => {
+            let len = j["values"].as_array().map(|x| x.len());
+            if len != Some(n * p) || j["nrows"].as_u64() != Some(n as u64) || j["ncols"].as_u64() != Some(p as u64) {
+                is.push(format!("serialised form has nrows {}, ncols {}, {:?} values", j["nrows"], j["ncols"], len));
+            }
+        }
+        Err(e) => is.push(format!("serialisation failed: {}", e)),
+    }
+    is
+}
+/// the same for Vec<T> as a BaseVector: rebuilt from get(i) over len()
+fn vector_issues<T: Sc>(r: &Vec<T>) -> Vec<String> {
+    let mut is: Vec<String> = vec![];
+    let len = BaseVector::len(r);
+    let e: Vec<T> = match guard(|| (0..len).map(|i| BaseVector::get(r, i)).collect::<Vec<T>>()) {
+        Ok(x) => x,
+        Err(e) => { is.push(format!("get(i) over len() = {} panicked: {}", len, e)); return is; }
+    };
+    let fe = vec_f(&e);
+    if r.len() != len {
+        is.push(format!("len() = {} but the vector holds {} values", len, r.len()));
+    }
+    for (name, g) in [("result.approximate_eq(rebuilt, 0)", guard(|| BaseVector::approximate_eq(r, &e, T::zero()))), ("rebuilt.approximate_eq(result, 0)", guard(|| BaseVector::approximate_eq(&e, r, T::zero())))] {
+        if g != Ok(true) {
+            is.push(format!("{} is {:?}", name, g));
+        }
+    }
+    if !agree_v(&guard(|| vec_f(&BaseVector::to_vec(r))), &Ok(fe.clone())) {
+        is.push("to_vec differs from the elements".to_string());
+    }
+    type Red<T> = (&'static str, fn(&Vec<T>) -> T);
+    let reds: Vec<Red<T>> = vec![("sum", |q| BaseVector::sum(q)), ("norm2", |q| BaseVector::norm2(q)), ("norm(1)", |q| BaseVector::norm(q, T::one())), ("norm(+inf)", |q| BaseVector::norm(q, T::infinity()))];
+    for (name, f) in &reds {
+        let (g, w) = (guard(|| f(r).f()), guard(|| f(&e).f()));
+        if !agree_f(&g, &w) {
+            is.push(format!("{} = {:?}, on the rebuilt vector {:?}", name, g, w));
+        }
+    }
+    let (g, w) = (guard(|| vec_f(&BaseVector::unique(r))), guard(|| vec_f(&BaseVector::unique(&e))));
+    if !agree_v(&g, &w) {
+        is.push(format!("unique = {}, on the rebuilt vector {}", short(&g), short(&w)));
+    }
+    let g = guard(|| { let mut z = <Vec<T> as BaseVector<T>>::zeros(len); BaseVector::copy_from(&mut z, r); vec_f(&z) });
+    if !agree_v(&g, &Ok(fe.clone())) {
+        is.push(format!("zeros(len).copy_from(result) gives {}", short(&g)));
+    }
+    is
+}
+impl Verdict {
+    /// post-condition on a matrix that an operation under test returned or mutated
+    fn post<T: Sc>(&mut self, what: &str, m: &DenseMatrix<T>) {
+        self.posts += 1;
+        let is = storage_issues(m);
+        if !is.is_empty() {
+            let vw = guard(|| view(m)).map(|x| short(&x)).unwrap_or_else(|e| format!("<unreadable: {}>", e));
+            self.fail("storage_consistent", format!("{}: the {}x{} result with logical view {} does not behave like the matrix built from that view: {}",
+                what, m.shape().0, m.shape().1, vw, is.join("; ")));
+        }
+    }
+    /// post-condition on a vector result
+    fn vpost<T: Sc>(&mut self, what: &str, r: &Result<Vec<T>, String>) {
+        if let Ok(r) = r {
+            self.posts += 1;
+            let is = vector_issues(r);
+            if !is.is_empty() {
+                self.fail("storage_consistent", format!("{}: vector result {}: {}", what, short(&vec_f(r)), is.join("; ")));
+            }
         }
     }
 }
@@ -413,6 +609,19 @@ fn o_structure<T: Sc>(c: &Case, v: &mut Verdict) {
     bad1.insert(0, p);
     v.must_panic("shape_contract", "take with a row index = nrows", guard(|| m.take(&bad0, 0)));
     v.must_panic("shape_contract", "take with a column index = ncols", guard(|| m.take(&bad1, 1)));
+    // remaining producers: rand (only its shape and storage are specified), clone, the serde round trip,
+    // and the vectors that matrix operations return
+    if let Some(r) = v.must_ok("construction", "rand", guard(|| DenseMatrix::<T>::rand(n, p))) {
+        v.chk(r.shape() == (n, p), "construction", || format!("rand({},{}) has shape {:?}", n, p, r.shape()));
+        v.post("rand", &r);
+    }
+    v.mat_exact("construction", "clone", guard(|| m.clone()), &a);
+    v.mat_exact("construction", "serde round trip", guard(|| serde_json::from_value::<DenseMatrix<T>>(serde_json::to_value(&m).unwrap()).unwrap()), &a);
+    v.vpost("get_row", &guard(|| m.get_row(sr)));
+    v.vpost("get_col_as_vec", &guard(|| m.get_col_as_vec(sc)));
+    v.vpost("to_row_vector", &guard(|| m.clone().to_row_vector()));
+    v.vpost("unique", &guard(|| m.unique()));
+    v.vpost("column_mean", &guard(|| m.column_mean()));
 }
 
 // ------------------------------------------------------------------------------------------
@@ -678,6 +887,7 @@ fn o_softmax<T: Sc>(c: &Case, v: &mut Verdict) {
     let eps = T::eps();
     let got = guard(|| { let mut w = mk::<T>(&a); w.softmax_mut(); w });
     let m = match v.must_ok("softmax", "softmax_mut", got) { Some(m) => m, None => return };
+    v.post("softmax_mut", &m);
     if m.shape() != (n, p) {
         v.fail("softmax", format!("shape changed to {:?}", m.shape()));
         return;
@@ -968,8 +1178,337 @@ fn o_vector<T: Sc>(c: &Case, v: &mut Verdict) {
             v.must_panic("shape_contract", &format!("Vec copy_from of length {} into {}", xb.len(), xa.len()), g);
         }
     }
+    // every vector result is an ordinary vector
+    {
+        let ix: Vec<usize> = c.idx.iter().map(|i| i % xa.len()).collect();
+        v.vpost("Vec from_array", &guard(|| <Vec<T> as BaseVector<T>>::from_array(&va)));
+        v.vpost("Vec fill", &guard(|| <Vec<T> as BaseVector<T>>::fill(xa.len(), x)));
+        v.vpost("Vec take", &guard(|| BaseVector::take(&va, &ix)));
+        v.vpost("Vec unique", &guard(|| BaseVector::unique(&va)));
+        v.vpost("Vec mul_scalar", &guard(|| va.mul_scalar(x)));
+        if samelen {
+            v.vpost("Vec add", &guard(|| BaseVector::add(&va, &vb)));
+            v.vpost("Vec div_mut", &guard(|| { let mut w = va.clone(); BaseVector::div_mut(&mut w, &vb); w }));
+            v.vpost("Vec copy_from", &guard(|| { let mut w = va.clone(); BaseVector::copy_from(&mut w, &vb); w }));
+        }
+    }
     // mean / var / std of the vector (two-pass: accurate for any offset)
     stats_lines::<T>(&vec![xa.clone()], v);
+}
+
+// ------------------------------------------------------------------------------------------
+// oracle 7: chains of operations.  a: start matrix; b: a second operand (used by the stacking steps when
+// its shape fits); idx: the steps, STEP numbers each [code, p1..p5] (decoded against the current shape);
+// nums: [x].  After every step the result is compared (1) with the same operation applied to the matrix
+// REBUILT from the logical view of the previous result (`chain_equals_rebuilt`: an operation may not see
+// anything of its operand beyond shape and entries), (2) with the definition of the operation on the
+// logical view where that is exact or has a stated tolerance (`chain_definition`), (3) with the
+// post-condition `storage_consistent`.  The last result is finally consumed by the reductions.
+// ------------------------------------------------------------------------------------------
+const STEP: usize = 6;
+#[derive(Clone, Debug)]
+enum Op {
+    Slice(usize, usize, usize, usize),
+    Take(Vec<usize>, u8),
+    Reshape(usize, usize),
+    Transpose,
+    /// other operand: 0 = the matrix itself, 1 = b when its shape fits (else itself), 2 = its first column / row (a slice)
+    HStack(usize),
+    VStack(usize),
+    /// false: m * m^T, true: m^T * m
+    MatmulT(bool),
+    /// ab(ta, m, tb) with itself
+    Ab(bool, bool),
+    /// element-wise op (0 add, 1 sub, 2 mul, 3 div) with |m| + 1; in place or copying
+    Zip(usize, bool),
+    Scalar(usize, bool),
+    /// 0 negative, 1 abs, 2 binarize(x), 3 pow(2)
+    Map(usize, bool),
+    CopyInto,
+    /// 0 from_row_vector(get_row(i)), 1 row_vector_from_array(get_row_as_vec(i)), 2 column_vector_from_vec(get_col_as_vec(i)),
+    /// 3 from_vec(n, p, to_row_vector()), 4 from_array(p, n, iter()), 5 new(n, p, into Vec), 6 column_vector_from_array(get_row(i))
+    Rewrap(usize, usize),
+    /// 0 set, 1 add, 2 sub, 3 mul, 4 div element
+    Elem(usize, usize, usize),
+    Softmax,
+    Scale(u8),
+    Cov,
+    CloneOf,
+    Serde,
+}
+fn decode(s: &[usize], n: usize, p: usize) -> Op {
+    let (p1, p2, p3, p4, p5) = (s[1], s[2], s[3], s[4], s[5]);
+    match s[0] % 26 {
+        0..=5 => {
+            let (mut r0, mut c0) = (p1 % n, p3 % p);
+            let (mut r1, mut c1) = (r0 + 1 + p2 % (n - r0), c0 + 1 + p4 % (p - c0));
+            match p5 % 6 {
+                1 => { r0 = 0; r1 = n; }                                  // all rows
+                2 => { c0 = 0; c1 = p; }                                  // all columns
+                3 => { r0 = 0; r1 = n; c0 = 0; c1 = 1 + p4 % p; }         // all rows, leading columns
+                4 => { c0 = 0; c1 = p; r0 = 0; r1 = 1 + p2 % n; }         // all columns, leading rows
+                _ => {}
+            }
+            Op::Slice(r0, r1, c0, c1)
+        }
+        6 | 7 => {
+            let axis = (p1 % 2) as u8;
+            let len = if axis == 0 { n } else { p };
+            Op::Take((0..1 + p2 % 4).map(|i| (p3 + i * (p4 % 5 + 1)) % len).collect(), axis)
+        }
+        8 | 9 => {
+            let divs: Vec<usize> = (1..=n * p).filter(|d| (n * p) % d == 0).collect();
+            let k = divs[p1 % divs.len()];
+            Op::Reshape(k, n * p / k)
+        }
+        10 | 11 => Op::Transpose,
+        12 => Op::HStack(p1 % 3),
+        13 => Op::VStack(p1 % 3),
+        14 => Op::MatmulT(p1 % 2 == 1),
+        15 => Op::Ab(p1 % 2 == 1, p2 % 2 == 1),
+        16 => Op::Zip(p1 % 4, p2 % 2 == 1),
+        17 => Op::Scalar(p1 % 4, p2 % 2 == 1),
+        18 => Op::Map(p1 % 4, p2 % 2 == 1),
+        19 => Op::CopyInto,
+        20 | 21 => { let k = p1 % 7; Op::Rewrap(k, p2 % (if k == 2 { p } else { n })) }
+        22 => Op::Elem(p1 % 5, p2 % n, p3 % p),
+        23 => match p1 % 4 { 0 => Op::Softmax, 1 => Op::Scale(0), 2 => Op::Scale(1), _ => Op::Cov },
+        24 => Op::CloneOf,
+        _ => Op::Serde,
+    }
+}
+fn scale_vectors<T: Sc>(len: usize, x: T) -> (Vec<T>, Vec<T>) {
+    ((0..len).map(|i| T::of(0.25 * i as f64 - 0.5) + x).collect(), (0..len).map(|i| T::of(0.5 + 0.75 * i as f64)).collect())
+}
+/// the step on the implementation (panics are caught by the caller); reads `m` only through the public API
+fn op_apply<T: Sc>(op: &Op, m: &DenseMatrix<T>, b: &DenseMatrix<T>, x: T) -> DenseMatrix<T> {
+    let (n, p) = m.shape();
+    match op {
+        Op::Slice(r0, r1, c0, c1) => m.slice(*r0..*r1, *c0..*c1),
+        Op::Take(ix, axis) => m.take(ix, *axis),
+        Op::Reshape(k, l) => m.reshape(*k, *l),
+        Op::Transpose => m.transpose(),
+        Op::HStack(w) => {
+            let o = match w { 1 if b.shape().0 == n => b.clone(), 2 => m.slice(0..n, 0..1), _ => m.clone() };
+            m.h_stack(&o)
+        }
+        Op::VStack(w) => {
+            let o = match w { 1 if b.shape().1 == p => b.clone(), 2 => m.slice(0..1, 0..p), _ => m.clone() };
+            m.v_stack(&o)
+        }
+        Op::MatmulT(false) => m.matmul(&m.transpose()),
+        Op::MatmulT(true) => m.transpose().matmul(m),
+        Op::Ab(ta, tb) => m.ab(*ta, m, *tb),
+        Op::Zip(which, inplace) => {
+            let mut o = m.abs();
+            o.add_scalar_mut(T::one());
+            if *inplace {
+                let mut w = m.clone();
+                match which { 0 => { w.add_mut(&o); } 1 => { w.sub_mut(&o); } 2 => { w.mul_mut(&o); } _ => { w.div_mut(&o); } };
+                w
+            } else {
+                match which { 0 => m.add(&o), 1 => m.sub(&o), 2 => m.mul(&o), _ => m.div(&o) }
+            }
+        }
+        Op::Scalar(which, inplace) => {
+            if *inplace {
+                let mut w = m.clone();
+                match which { 0 => { w.add_scalar_mut(x); } 1 => { w.sub_scalar_mut(x); } 2 => { w.mul_scalar_mut(x); } _ => { w.div_scalar_mut(x); } };
+                w
+            } else {
+                match which { 0 => m.add_scalar(x), 1 => m.sub_scalar(x), 2 => m.mul_scalar(x), _ => m.div_scalar(x) }
+            }
+        }
+        Op::Map(which, inplace) => {
+            if *inplace {
+                let mut w = m.clone();
+                match which { 0 => { w.negative_mut(); } 1 => { w.abs_mut(); } 2 => { w.binarize_mut(x); } _ => { w.pow_mut(T::two()); } };
+                w
+            } else {
+                match which { 0 => m.negative(), 1 => m.abs(), 2 => m.binarize(x), _ => m.clone().pow(T::two()) }
+            }
+        }
+        Op::CopyInto => { let mut z = DenseMatrix::<T>::zeros(n, p); z.copy_from(m); z }
+        Op::Rewrap(k, i) => match k {
+            0 => DenseMatrix::<T>::from_row_vector(m.get_row(*i)),
+            1 => DenseMatrix::<T>::row_vector_from_array(&m.get_row_as_vec(*i)),
+            2 => DenseMatrix::<T>::column_vector_from_vec(m.get_col_as_vec(*i)),
+            3 => DenseMatrix::<T>::from_vec(n, p, &m.clone().to_row_vector()),
+            4 => DenseMatrix::<T>::from_array(p, n, &m.iter().collect::<Vec<T>>()),
+            5 => DenseMatrix::<T>::new(n, p, m.clone().into()),
+            _ => DenseMatrix::<T>::column_vector_from_array(&m.get_row(*i)),
+        },
+        Op::Elem(which, r, c) => {
+            let mut w = m.clone();
+            match which { 0 => w.set(*r, *c, x), 1 => w.add_element_mut(*r, *c, x), 2 => w.sub_element_mut(*r, *c, x), 3 => w.mul_element_mut(*r, *c, x), _ => w.div_element_mut(*r, *c, x) };
+            w
+        }
+        Op::Softmax => { let mut w = m.clone(); w.softmax_mut(); w }
+        Op::Scale(axis) => {
+            let (mu, sd) = scale_vectors::<T>(if *axis == 0 { p } else { n }, x);
+            let mut w = m.clone();
+            w.scale_mut(&mu, &sd, *axis);
+            w
+        }
+        Op::Cov => m.cov(),
+        Op::CloneOf => m.clone(),
+        Op::Serde => serde_json::from_value::<DenseMatrix<T>>(serde_json::to_value(m).unwrap()).unwrap(),
+    }
+}
+enum Spec {
+    /// the logical view of the result, entry for entry
+    Exact(Rows),
+    /// value and entrywise tolerance
+    Close(Rows, Rows),
+    /// the shapes do not fit: must be rejected
+    Reject,
+    /// no definition is evaluated at this step (transcendental / rounding-order dependent): only (1) and (3)
+    Unspecified,
+}
+/// the step's definition on the logical view `a` (entries already representable in T)
+fn op_spec<T: Sc>(op: &Op, a: &Rows, b: &Rows, x: T) -> Spec {
+    let (n, p) = shape_of(a);
+    let t = |v: f64| T::of(v);
+    let map = |f: &dyn Fn(T) -> T| -> Rows { a.iter().map(|r| r.iter().map(|v| f(T::of(*v)).f()).collect()).collect() };
+    match op {
+        Op::Slice(r0, r1, c0, c1) => Spec::Exact((*r0..*r1).map(|r| (*c0..*c1).map(|c| a[r][c]).collect()).collect()),
+        Op::Take(ix, 0) => Spec::Exact(ix.iter().map(|&i| a[i].clone()).collect()),
+        Op::Take(ix, _) => Spec::Exact((0..n).map(|r| ix.iter().map(|&i| a[r][i]).collect()).collect()),
+        Op::Reshape(k, l) => Spec::Exact(s_reshape(a, *k, *l)),
+        Op::Transpose => Spec::Exact(s_transpose(a)),
+        Op::HStack(w) => {
+            let o: Rows = match w { 1 if shape_of(b).0 == n => b.clone(), 2 => a.iter().map(|r| vec![r[0]]).collect(), _ => a.clone() };
+            Spec::Exact((0..n).map(|r| a[r].iter().chain(o[r].iter()).cloned().collect()).collect())
+        }
+        Op::VStack(w) => {
+            let o: Rows = match w { 1 if shape_of(b).1 == p => b.clone(), 2 => vec![a[0].clone()], _ => a.clone() };
+            Spec::Exact(a.iter().chain(o.iter()).cloned().collect())
+        }
+        Op::MatmulT(tr) => {
+            let at = s_transpose(a);
+            let (e, tl) = if *tr { s_matmul(&at, a, T::eps()) } else { s_matmul(a, &at, T::eps()) };
+            Spec::Close(e, tl)
+        }
+        Op::Ab(ta, tb) => {
+            let at = s_transpose(a);
+            let (l, r) = (if *ta { &at } else { a }, if *tb { &at } else { a });
+            if shape_of(l).1 != shape_of(r).0 {
+                Spec::Reject
+            } else {
+                let (e, tl) = s_matmul(l, r, T::eps());
+                Spec::Close(e, tl)
+            }
+        }
+        Op::Zip(which, _) => Spec::Exact(map(&|v| { let o = v.abs() + T::one(); match which { 0 => v + o, 1 => v - o, 2 => v * o, _ => v / o } })),
+        Op::Scalar(which, _) => Spec::Exact(map(&|v| match which { 0 => v + x, 1 => v - x, 2 => v * x, _ => v / x })),
+        Op::Map(0, _) => Spec::Exact(map(&|v| -v)),
+        Op::Map(1, _) => Spec::Exact(map(&|v| v.abs())),
+        Op::Map(2, _) => Spec::Exact(map(&|v| if v > x { T::one() } else { T::zero() })),
+        Op::Map(_, _) => {
+            let e: Rows = a.iter().map(|r| r.iter().map(|v| v * v).collect()).collect();
+            let tl: Rows = e.iter().map(|r| r.iter().map(|v| 16.0 * T::eps() * v.abs() + if T::F32 { 1e-37 } else { 1e-300 }).collect()).collect();
+            Spec::Close(e, tl)
+        }
+        Op::CopyInto | Op::CloneOf | Op::Serde | Op::Rewrap(3, _) | Op::Rewrap(5, _) => Spec::Exact(a.clone()),
+        Op::Rewrap(0, i) | Op::Rewrap(1, i) => Spec::Exact(vec![a[*i].clone()]),
+        Op::Rewrap(2, i) => Spec::Exact((0..n).map(|r| vec![a[r][*i]]).collect()),
+        Op::Rewrap(4, _) => Spec::Exact(s_reshape(a, p, n)),
+        Op::Rewrap(_, i) => Spec::Exact(a[*i].iter().map(|v| vec![*v]).collect()),
+        Op::Elem(which, r, c) => {
+            let mut e = a.clone();
+            let v = t(a[*r][*c]);
+            e[*r][*c] = (match which { 0 => x, 1 => v + x, 2 => v - x, 3 => v * x, _ => v / x }).f();
+            Spec::Exact(e)
+        }
+        Op::Scale(axis) => {
+            let (mu, sd) = scale_vectors::<T>(if *axis == 0 { p } else { n }, x);
+            Spec::Exact((0..n).map(|r| (0..p).map(|c| { let i = if *axis == 0 { c } else { r }; ((t(a[r][c]) - mu[i]) / sd[i]).f() }).collect()).collect())
+        }
+        Op::Softmax | Op::Cov => Spec::Unspecified,
+    }
+}
+fn o_chain<T: Sc>(c: &Case, v: &mut Verdict) {
+    let a = round_to::<T>(&c.a);
+    let b = if c.b.is_empty() { a.clone() } else { round_to::<T>(&c.b) };
+    let x = T::of(num(c, 0, 1.5));
+    let lim = if T::F32 { 1e15 } else { 1e100 };
+    let mb = mk::<T>(&b);
+    let mut cur = mk::<T>(&a);
+    let mut trail = format!("{}x{}", a.len(), a[0].len());
+    for s in c.idx.chunks(STEP) {
+        let (n, p) = cur.shape();
+        if s.len() < STEP || n == 0 || p == 0 {
+            break;
+        }
+        let vw = match guard(|| view(&cur)) { Ok(x) => x, Err(_) => break };
+        let op = decode(s, n, p);
+        trail = format!("{} -> {:?}", trail, op);
+        // (1) the same step on the operand rebuilt from the logical view
+        let reb = mk::<T>(&vw);
+        let got = guard(|| op_apply(&op, &cur, &mb, x));
+        let refr = guard(|| op_apply(&op, &reb, &mb, x));
+        let (gv, rv) = (got.as_ref().map_err(|e| e.clone()).and_then(|g| guard(|| (g.shape(), view(g)))), refr.as_ref().map_err(|e| e.clone()).and_then(|g| guard(|| (g.shape(), view(g)))));
+        let agree = match (&gv, &rv) { (Ok((s1, v1)), Ok((s2, v2))) => s1 == s2 && same_rows(v1, v2), (Err(_), Err(_)) => true, _ => false };
+        v.chk(agree, "chain_equals_rebuilt", || format!("{}: the last step gives {} on the result of the previous steps (logical view {}) but {} on the matrix rebuilt from that view",
+            trail, short(&gv), short(&vw), short(&rv)));
+        // (2) the definition, (3) the post-condition (inside mat_exact / mat_close)
+        let finite = flat(&vw).iter().all(|t| t.is_finite() && t.abs() < lim);
+        match op_spec::<T>(&op, &vw, &b, x) {
+            Spec::Reject => v.must_panic("shape_contract", &trail, got.clone()),
+            Spec::Exact(e) if finite => v.mat_exact("chain_definition", &trail, got.clone(), &e),
+            Spec::Close(e, tl) if finite => {
+                // binary32 products of small entries underflow: absolute floor of a few subnormal steps per term
+                let tl: Rows = tl.iter().map(|r| r.iter().map(|t| t + if T::F32 { 1e-43 * (n + p + 2) as f64 } else { 0.0 }).collect()).collect();
+                v.mat_close("chain_definition", &trail, got.clone(), &e, &tl)
+            }
+            _ => {
+                if !finite { v.excluded += 1; }
+                if let Ok(g) = &got { v.post(&trail, g); }
+            }
+        }
+        match got { Ok(g) => cur = g, Err(_) => return }
+    }
+    // consumers of the last result, against their definitions on its logical view
+    let (n, p) = cur.shape();
+    if n == 0 || p == 0 {
+        return;
+    }
+    let vw = match guard(|| view(&cur)) { Ok(x) => x, Err(e) => { v.fail("chain_definition", format!("{}: reading the result panicked: {}", trail, e)); return; } };
+    let fa = flat(&vw);
+    if !fa.iter().all(|t| t.is_finite() && t.abs() < lim) {
+        v.excluded += 1;
+        return;
+    }
+    let eps = T::eps();
+    let k = fa.len() as f64;
+    let (s, sabs) = csum(&fa);
+    // absolute floor: binary32 results in the subnormal range (squares of small entries underflow)
+    let uf = if T::F32 { 1e-43 * (k + 2.0) } else { 1e-300 };
+    v.num_close("chain_definition", &format!("{} -> sum", trail), guard(|| cur.sum().f()), s, 8.0 * (k + 1.0) * eps * sabs + uf);
+    v.num_close("chain_definition", &format!("{} -> max", trail), guard(|| cur.max().f()), fa.iter().cloned().fold(f64::NEG_INFINITY, f64::max), 0.0);
+    v.num_close("chain_definition", &format!("{} -> min", trail), guard(|| cur.min().f()), fa.iter().cloned().fold(f64::INFINITY, f64::min), 0.0);
+    let n2 = csum(&fa.iter().map(|t| t * t).collect::<Vec<f64>>()).0.sqrt();
+    if n2.is_finite() && n2 < if T::F32 { 1e18 } else { 1e150 } {
+        v.num_close("chain_definition", &format!("{} -> norm2", trail), guard(|| cur.norm2().f()), n2, 8.0 * (k + 2.0) * eps * n2 + uf.sqrt());
+    }
+    v.num_close("chain_definition", &format!("{} -> norm(1)", trail), guard(|| cur.norm(T::one()).f()), sabs, 64.0 * (k + 2.0) * eps * sabs + uf);
+    v.num_close("chain_definition", &format!("{} -> norm(+inf)", trail), guard(|| cur.norm(T::infinity()).f()), maxabs(&fa), 0.0);
+    let mut u = fa.clone();
+    u.sort_by(|p, q| p.partial_cmp(q).unwrap());
+    u.dedup();
+    v.vec_exact("chain_definition", &format!("{} -> unique", trail), guard(|| vec_f(&cur.unique())), &u);
+    v.vec_exact("chain_definition", &format!("{} -> to_row_vector", trail), guard(|| vec_f(&cur.clone().to_row_vector())), &fa);
+    v.vec_exact("chain_definition", &format!("{} -> iter", trail), guard(|| cur.iter().take(fa.len() + 8).map(|t| t.f()).collect()), &fa);
+    let e = mk::<T>(&vw);
+    v.chk(guard(|| cur == e) == Ok(true), "chain_definition", || format!("{} -> ==: the result (logical view {}) is not equal to the matrix with the same entries", trail, short(&vw)));
+    v.chk(guard(|| e == cur) == Ok(true), "chain_definition", || format!("{} -> ==: the matrix with the same entries is not equal to the result (logical view {})", trail, short(&vw)));
+    v.num_close("chain_definition", &format!("{} -> max_diff(matrix with the same entries)", trail), guard(|| cur.max_diff(&e).f()), 0.0, 0.0);
+    // consumer -> consumer: the flattened vector and its reductions, and back to a matrix
+    if let Some(rv) = v.must_ok("chain_definition", &format!("{} -> to_row_vector", trail), guard(|| cur.clone().to_row_vector())) {
+        v.num_close("chain_definition", &format!("{} -> to_row_vector -> Vec sum", trail), guard(|| BaseVector::sum(&rv).f()), s, 8.0 * (k + 1.0) * eps * sabs + uf);
+        v.vec_exact("chain_definition", &format!("{} -> to_row_vector -> Vec unique", trail), guard(|| vec_f(&BaseVector::unique(&rv))), &u);
+        v.mat_exact("chain_definition", &format!("{} -> to_row_vector -> from_row_vector -> reshape", trail), guard(|| DenseMatrix::<T>::from_row_vector(rv.clone()).reshape(n, p)), &vw);
+    }
 }
 
 // ------------------------------------------------------------------------------------------
@@ -987,6 +1526,7 @@ fn run_case(c: &Case) -> Verdict {
             "softmax" => go!(o_softmax),
             "variance" => go!(o_variance),
             "vector" => go!(o_vector),
+            "chain" => go!(o_chain),
             _ => v.fail("replay", format!("unknown entry {}", c.entry)),
         }
         v
@@ -997,6 +1537,9 @@ fn run_case(c: &Case) -> Verdict {
     }
     v
 }
+
+/// number of results (matrices and vectors) the post-condition `storage_consistent` was evaluated on
+static POSTS: std::sync::atomic::AtomicU64 = std::sync::atomic::AtomicU64::new(0);
 
 fn record(out: &mut Out, c: &Case) {
     let v = run_case(c);
@@ -1009,6 +1552,10 @@ fn record(out: &mut Out, c: &Case) {
     out.count(&format!("search:shape:{}", kind));
     for _ in 0..v.excluded {
         out.count("search:excluded-near-tie-or-overflow");
+    }
+    POSTS.fetch_add(v.posts as u64, std::sync::atomic::Ordering::Relaxed);
+    if c.entry == "chain" {
+        out.count(&format!("search:chain:steps-{}", c.idx.len() / STEP));
     }
     for (id, what) in &v.known {
         out.known(id, what);
@@ -1107,8 +1654,35 @@ fn search(out: &mut Out, rng: &mut Rng, thorough: bool) {
     record(out, &Case { entry: "variance".into(), f32m: false, family: "corpus".into(), a: vec![vec![1e8], vec![1e8 + 1.0], vec![1e8 + 2.0], vec![1e8 + 3.0]], ..Default::default() });
     record(out, &Case { entry: "vector".into(), f32m: false, family: "corpus".into(), a: vec![vec![1e8, 1e8 + 1.0, 1e8 + 2.0, 1e8 + 3.0]], b: vec![vec![1.0, 2.0, 3.0, 4.0]], idx: vec![3, 0, 0], nums: vec![1.5, 2.0, 0.25], ..Default::default() });
 
+    // seeded change C03d_2 (a slice of all rows and leading / middle columns that kept the trailing columns in
+    // its buffer, visible only to a following ==, sum, min, max, unique, max_diff, copy_from): the two-step inputs
+    for f32m in [false, true] {
+        let m = vec![vec![1.0, 2.0, 3.0, -40.0, 50.0], vec![4.0, 5.0, 6.0, -70.0, 80.0], vec![7.0, 8.0, 9.0, -100.0, 110.0]];
+        // slice(0..3, 0..2), slice(0..3, 1..3), then the reductions; slice then copy_from; slice then transpose
+        record(out, &Case { entry: "chain".into(), f32m, family: "corpus".into(), a: m.clone(), idx: vec![0, 0, 0, 0, 1, 3], nums: vec![1.5], ..Default::default() });
+        record(out, &Case { entry: "chain".into(), f32m, family: "corpus".into(), a: m.clone(), idx: vec![0, 0, 0, 1, 1, 1], nums: vec![1.5], ..Default::default() });
+        record(out, &Case { entry: "chain".into(), f32m, family: "corpus".into(), a: m.clone(), idx: vec![0, 0, 0, 0, 1, 3, 19, 0, 0, 0, 0, 0], nums: vec![1.5], ..Default::default() });
+        record(out, &Case { entry: "chain".into(), f32m, family: "corpus".into(), a: vec![vec![3.0, -1.0, 4.0, -1.0, 5.0, -9.0]], idx: vec![0, 0, 0, 2, 2, 0, 10, 0, 0, 0, 0, 0], nums: vec![1.5], ..Default::default() });
+        record(out, &Case { entry: "structure".into(), f32m, family: "corpus".into(), a: m, idx: vec![2, 0], dims: vec![0, 2, 0, 1, 1, 1], nums: vec![1.5], ..Default::default() });
+    }
+
     let maxd = 12;
     let scale = if thorough { 200 } else { 16 };
+    // chains of two and three operations (some of one, some of four) on shapes up to 6x6
+    for i in 0..800 * scale {
+        let f32m = i % 4 == 3;
+        let fam = *rng.pick(&FAMILIES);
+        let (n, p) = gen_shape(rng, 6);
+        let (n2, p2) = match rng.below(4) { 0 => (n, rng.usize_in(1, 6)), 1 => (rng.usize_in(1, 6), p), 2 => (n, p), _ => gen_shape(rng, 6) };
+        let steps = *rng.pick(&[1usize, 2, 2, 2, 3, 3, 3, 4]);
+        let mut idx: Vec<usize> = (0..steps * STEP).map(|_| rng.below(1000)).collect();
+        // half of the chains start with a slice (code 0..=5), a quarter of those with a full-row / full-column one
+        if rng.bool() { idx[0] = rng.below(6); if rng.bool() { idx[5] = 6 * rng.below(100) + rng.usize_in(1, 4); } }
+        let c = Case { entry: "chain".into(), f32m, family: fam.into(), a: gen_rows(rng, n, p, fam, f32m), b: gen_rows(rng, n2, p2, fam, f32m), idx,
+            nums: vec![*rng.pick(&[1.5, -2.0, 0.5, 4.0, -0.75])], ..Default::default() };
+        if i < 1 { out.sample(c.to_json()); }
+        record(out, &c);
+    }
     // small shapes exhaustively for the structural oracle
     for n in 1..=(if thorough { 6 } else { 4 }) {
         for p in 1..=(if thorough { 6 } else { 4 }) {
@@ -1504,11 +2078,12 @@ fn main() {
     let mut rng = Rng::new(a.seed);
     let mut out = Out::new(
         "C03",
-        "search case = (oracle group, f64|f32, matrix/vector data[, second operand, index list, scalars]); every public method in the group is evaluated on it and compared with its definition on the logical view; non-trivial: non-square shape or data with negative entries; distinct by hash of all inputs",
+        "search case = (oracle group, f64|f32, matrix/vector data[, second operand, index list, scalars]); every public method in the group is evaluated on it and compared with its definition on the logical view, every matrix/vector it returns or mutates passes the post-condition storage_consistent (= behaves like the matrix rebuilt from its logical view); group chain: 1-4 random operations applied in sequence, each step compared with the same step on the rebuilt operand and with its definition; non-trivial: non-square shape or data with negative entries; distinct by hash of all inputs",
     );
     let mut r1 = rng.fork();
     search(&mut out, &mut r1, a.thorough);
     let mut r2 = rng.fork();
     correspondence(&mut out, &mut r2, a.thorough);
+    out.set("storage_consistent_checks", json!(POSTS.load(std::sync::atomic::Ordering::Relaxed)));
     out.finish(&a.out);
 }
